@@ -217,6 +217,75 @@ fn check_type(ty: SignType, name: &str, expect: Option<(u8, u8, u32, u32)>, rep:
             }
         }
     }
+    // ... and what the sign derived from the block stays put through whatever happens to PIXEL transfers afterwards
+    // (a lost chunk, a wrong count, an abandoned transfer, page flips): same type, and the repeat stores a full page
+    if block.len() == 16 {
+        let own = 0x0023u16;
+        let img = RefPage::new(5, w, h).image();
+        let chunks: Vec<RefMsg> = img.chunks(16).enumerate().map(|(i, c)| RefMsg::Data { offset: (i * 16) as u16, data: c.to_vec() }).collect();
+        let n = chunks.len() as u16;
+        for variant in 0..4 {
+            let mut msgs = vsx::configure_msgs(own, &block);
+            msgs.push(RefMsg::Request(own, O_RECV_PIX));
+            match variant {
+                0 => {
+                    msgs.extend(chunks.iter().skip(1).cloned()); // first chunk lost
+                    msgs.push(RefMsg::Count(n));
+                }
+                1 => {
+                    msgs.extend(chunks.iter().cloned());
+                    msgs.push(RefMsg::Count(n.wrapping_add(1))); // wrong count
+                }
+                2 => {
+                    msgs.extend(chunks.iter().take(1).cloned()); // abandoned, then asked again
+                }
+                _ => {
+                    msgs.extend(chunks.iter().cloned());
+                    msgs.push(RefMsg::Count(n));
+                    msgs.push(RefMsg::Complete(own));
+                    msgs.push(RefMsg::Request(own, O_SHOW));
+                    msgs.push(RefMsg::Query(own));
+                }
+            }
+            let mut pair = Pair::new(own, variant == 3);
+            let mut bad: Option<String> = None;
+            for m in &msgs {
+                if vsx::step(&mut pair, m).panic.is_some() {
+                    bad = Some("panicked".into());
+                    break;
+                }
+            }
+            if bad.is_none() && pair.sign.sign_type() != Some(ty) {
+                bad = Some(format!("records type {:?} after {}", pair.sign.sign_type(), ["a pixel transfer with a lost chunk", "a pixel transfer with a wrong count", "an abandoned pixel transfer", "a completed transfer and a page flip"][variant]));
+            }
+            if bad.is_none() {
+                // the repeat
+                let mut again = vec![RefMsg::Request(own, O_RECV_PIX)];
+                again.extend(chunks.iter().cloned());
+                again.push(RefMsg::Count(n));
+                for m in &again {
+                    if vsx::step(&mut pair, m).panic.is_some() {
+                        bad = Some("panicked in the repeated transfer".into());
+                        break;
+                    }
+                }
+                let pages = pair.sign.pages();
+                // (whether the repeat is accepted from where the history left the sign is the state machine's business
+                // — C13; here: IF a page was due, it is a full page of this type's size, and the type is still recorded)
+                let page_due = pair.model.pages.len() == 1;
+                if page_due {
+                    rep.count("virtual_sign_repeat_stored_a_page");
+                }
+                if bad.is_none() && (pair.sign.sign_type() != Some(ty) || (page_due && (pages.len() != 1 || pages[0].width() != w || pages[0].height() != h || pages[0].as_bytes() != &img[..]))) {
+                    bad = Some(format!("after the repeated transfer it records type {:?} and holds {} page(s)", pair.sign.sign_type(), pages.len()));
+                }
+            }
+            rep.count("virtual_sign_type_through_pixel_transfers");
+            if let Some(what) = bad {
+                rep.violation(MON_T, "virtual_sign_loses_type_after_pixel_transfer", &format!("{}:{}", name, variant), format!("{}: the virtual sign {}", name, what), J::obj(vec![("type", J::s(name)), ("history_head", J::Arr(msgs.iter().take(10).map(|m| J::s(m.show())).collect())), ("observed", J::s(what.clone()))]));
+            }
+        }
+    }
     rep.count("types_checked");
     rep.sample_always(J::obj(vec![("type", J::s(name)), ("block", J::hex(&block)), ("dimensions", J::s(format!("{}x{}", w, h)))]));
 }
@@ -346,6 +415,7 @@ pub fn run(ctx: &Ctx) -> Outcome {
         floor("every length 0..=40", report.set_len("lengths") == 41, report.set_len("lengths")),
         floor("lengths that are 16 modulo 2^8 / 2^16 / 2^24", report.set_len("long_lengths") == 6, report.set_len("long_lengths")),
         floor("listed pairs accepted and unlisted pairs rejected", report.get("accepted_listed") >= 11 * 8 && report.get("rejected_unlisted") > 500_000, report.get("accepted_listed")),
+        floor("recorded type followed through failed / abandoned / completed pixel transfers, for every type", report.get("virtual_sign_type_through_pixel_transfers") == 44 && report.get("virtual_sign_repeat_stored_a_page") >= 22, report.get("virtual_sign_type_through_pixel_transfers")),
         floor("an unsupported block after a supported one, for every type", report.get("virtual_sign_unsupported_block_after_supported") >= 44, report.get("virtual_sign_unsupported_block_after_supported")),
         floor("virtual sign reconfigured from every other type (11 x 10 x 2 histories)", report.get("virtual_sign_reconfigurations") == 220, report.get("virtual_sign_reconfigurations")),
         floor("virtual sign configured with every type's block", report.get("virtual_sign_configurations") >= 11, report.get("virtual_sign_configurations")),
